@@ -6,8 +6,9 @@
  *         0, and every negative code -1..-35: reaches the 'test' and 'retired' arms the table cannot
  *   plus eav_init defaults read back field by field.
  */
-#include "../mc/mc.h"
-#include "../ref/ref_tld.h"
+#include "corpus.h"
+#include "../ref/ref_local.h"
+#include "../ref/ref_domain.h"
 #include <eav.h>
 #include <eav/auto_tld.h>
 
@@ -77,9 +78,55 @@ static void mask_shard(long mask, void *arg) {
     }
 }
 
+/* ---------- the policy can only veto: corpora of (mostly invalid) addresses under the extreme and single-bit masks ----------
+ * For every address of the local-part / e-mail / domain / literal / lpxdom corpora, every mode:
+ *   (1) tld_check off: return value and errcode are the same under mask 0, mask 0x7ff, the default mask and each single-bit mask
+ *   (2) tld_check on:  an address accepted under some mask is accepted with tld_check off (the policy filters valid addresses, it never
+ *                      rescues one a validator refused)
+ *   (3) the reference models say REJECT (local part or ASCII domain part / literal): refused under every mask, tld_check on and off */
+#define NPM 14
+static int PMASK[NPM]; static eav_t POBJ[4][2][NPM]; static int C_VETO, CURPH8;
+static void veto_objects(void) {
+    eav_t d; memset(&d, 0, sizeof d); eav_init(&d);
+    PMASK[0] = 0; PMASK[1] = 0x7ff; PMASK[2] = d.allow_tld; for (int b = 0; b < 11; b++) PMASK[3 + b] = 1 << b;
+    for (int m = 0; m < 4; m++) for (int t = 0; t < 2; t++) for (int k = 0; k < NPM; k++) {
+        eav_t *e = &POBJ[m][t][k]; memset(e, 0, sizeof *e); eav_init(e); e->rfc = RFC[m]; e->tld_check = t; e->allow_tld = PMASK[k];
+        if (eav_setup(e) != 0) { fprintf(stderr, "setup failed\n"); exit(2); }
+    }
+}
+static void veto_sink(const unsigned char *s, size_t n, void *arg) {
+    (void)arg; if (n == 0 || n > 3000) return;
+    for (size_t i = 0; i < n; i++) if (!s[i]) return;
+    char buf[3072]; memcpy(buf, s, n); buf[n] = 0;
+    long at = -1; for (long i = (long)n - 1; i >= 0; i--) if (s[i] == '@') { at = i; break; }
+    for (int m = 0; m < 4; m++) {
+        int refrej = 0;
+        if (at <= 0 || (size_t)at == n - 1 || at > 64) refrej = 1;
+        else {
+            if (ref_local(s, (size_t)at, m, 0) == R_REJ) refrej = 1;
+            const unsigned char *D = s + at + 1; size_t dn = n - (size_t)at - 1; int fam;
+            if ((D[0] == '[' || m != 3) && ref_domainpart(D, dn, 0, &fam) == R_REJ) refrej = 1;
+        }
+        char cfg[64]; snprintf(cfg, sizeof cfg, "veto=1 mode=%s", MN[m]);
+        mc_current(corpus_name(CURPH8), cfg, s, n);
+        int ret[2][NPM], err[2][NPM], any_on = 0;
+        for (int t = 0; t < 2; t++) for (int k = 0; k < NPM; k++) { ret[t][k] = eav_is_email(&POBJ[m][t][k], buf, n); err[t][k] = POBJ[m][t][k].errcode; if (t && ret[t][k]) any_on = 1; }
+        MC_ADD(C_EVAL, 2 * NPM); MC_ADD(C_VETO, 1);
+        for (int k = 1; k < NPM; k++) if (ret[0][k] != ret[0][0] || err[0][k] != err[0][0]) {
+            mc_violation(corpus_name(CURPH8), "veto:mask-matters-with-tld_check-off", "", cfg, s, n, "tld_check off: mask 0 gives ret=%d errcode=%d, mask 0x%03x gives ret=%d errcode=%d", ret[0][0], err[0][0], PMASK[k], ret[0][k], err[0][k]); break; }
+        if (any_on && !ret[0][0])
+            mc_violation(corpus_name(CURPH8), "veto:accepted-with-policy-refused-without", "", cfg, s, n, "accepted under some mask with tld_check on, but refused (errcode %d) with tld_check off", err[0][0]);
+        if (refrej) for (int t = 0; t < 2; t++) for (int k = 0; k < NPM; k++) if (ret[t][k]) {
+            mc_violation(corpus_name(CURPH8), "veto:reference-rejects-but-accepted-under-some-mask", "", cfg, s, n, "the reference models refuse this address; tld_check=%d mask 0x%03x: accepted", t, PMASK[k]); t = 2; break; }
+    }
+}
+static void veto_shard(long shard, void *arg) { (void)arg; corpus_run(CURPH8, shard, veto_sink, NULL); }
+
 static int do_replay(void) {
     mc_replay_t r; if (mc_load_replay(mc_replay, &r)) return 2;
     mc_replay_hit = 0;
+    if (mc_cfg_int(r.cfg, "veto", 0)) { veto_objects(); for (int i = 0; i < CP_N; i++) if (!strcmp(r.sub, corpus_name(i))) CURPH8 = i; veto_sink(r.in, (size_t)r.len, NULL);
+        printf("replay %s: %s\n", mc_replay, mc_replay_hit ? "VIOLATION reproduced" : "no violation"); return mc_replay_hit ? 1 : 0; }
     char a[256]; memcpy(a, r.in, (size_t)r.len); a[r.len] = 0;
     long mode = mc_cfg_int(r.cfg, "mode", 6531); int m = mode == 822 ? 0 : mode == 5321 ? 1 : mode == 5322 ? 2 : 3;
     check_one(r.sub, (int)mc_cfg_int(r.cfg, "mask", 0), m, (int)mc_cfg_int(r.cfg, "tld", 1), a, (int)mc_cfg_int(r.cfg, "cls", 0), (int)mc_cfg_int(r.cfg, "cb", 0));
@@ -89,7 +136,7 @@ static int do_replay(void) {
 
 int main(int argc, char **argv) {
     mc_init(argc, argv, "C08");
-    C_REAL = mc_counter("real_address_cases"); C_CB = mc_counter("callback_cases"); C_ACCEPT = mc_counter("expected_accept"); C_REJECT = mc_counter("expected_reject");
+    C_REAL = mc_counter("real_address_cases"); C_CB = mc_counter("callback_cases"); C_ACCEPT = mc_counter("expected_accept"); C_REJECT = mc_counter("expected_reject"); C_VETO = mc_counter("veto_address_mode_cases");
     if (rt_load()) return 2;
     /* one real address per class present in the CSV (first row of each class), found by the harness */
     int seen[16] = {0}; int classes_in_table = 0;
@@ -124,6 +171,9 @@ int main(int argc, char **argv) {
     }
     mc_extra_add("\"classes_present_in_table\":%d,\"real_addresses\":%d", classes_in_table, NREAL);
     mc_parallel("all 2^11 masks x 4 modes x tld on/off x (real addresses + injected classes/codes)", 2048, mask_shard, NULL);
-    mc_sh->ctr[C_NONTRIV] = mc_sh->ctr[C_REAL] + mc_sh->ctr[C_CB];     /* (mask, mode, tld, case) tuples: distinct by construction */
+    { static const int PH[] = { CP_LPXDOM, CP_LOCAL, CP_EMAIL, CP_DOMAIN, CP_LITERAL, CP_MAXLIT, CP_LABELLEN };
+      CORPUS_DEEP = mc_thorough; if (corpus_load()) return 2; veto_objects();
+      for (unsigned i = 0; i < sizeof PH / sizeof PH[0]; i++) { CURPH8 = PH[i]; char nm[96]; snprintf(nm, sizeof nm, "veto: 14 masks x tld on/off x 4 modes over %.40s", corpus_name(CURPH8)); mc_parallel(nm, corpus_shards(CURPH8), veto_shard, NULL); } }
+    mc_sh->ctr[C_NONTRIV] = mc_sh->ctr[C_REAL] + mc_sh->ctr[C_CB] + mc_sh->ctr[C_VETO];     /* (mask, mode, tld, case) tuples: distinct by construction */
     return mc_finish();
 }
